@@ -60,7 +60,23 @@ type namedI16 int16
 type namedU32 uint32
 type namedI64 int64
 
+// Two DIFFERENT types with the same name and the same String() ("enc.rec"), of different sizes: anything that
+// identifies a type by its printed name (a cache, a registry) confuses them.
+func localRecA() reflect.Type {
+	type rec struct{ A, B uint32 }
+	return reflect.TypeOf(rec{})
+}
+
+func localRecB() reflect.Type {
+	type rec struct {
+		A uint16
+		B [2][2]uint8
+	}
+	return reflect.TypeOf(rec{})
+}
+
 var primTypes = map[string]reflect.Type{
+	"recA": localRecA(), "recB": localRecB(),
 	"nu8": reflect.TypeOf(namedU8(0)), "ni16": reflect.TypeOf(namedI16(0)),
 	"nu32": reflect.TypeOf(namedU32(0)), "ni64": reflect.TypeOf(namedI64(0)),
 	"u8": reflect.TypeOf(uint8(0)), "u16": reflect.TypeOf(uint16(0)),
@@ -641,7 +657,7 @@ func boundaries(w int) []uint64 {
 	return out
 }
 
-var typeLeaves = []string{"u8", "u16", "u32", "u64", "i8", "i16", "i32", "i64", "nu8", "ni16", "nu32", "ni64", "f32", "f64"}
+var typeLeaves = []string{"u8", "u16", "u32", "u64", "i8", "i16", "i32", "i64", "nu8", "ni16", "nu32", "ni64", "f32", "f64", "recA", "recB"}
 
 // RandType returns a random fixed-size type term of bounded depth and its number of leaves.
 func RandType(r interface{ Intn(int) int }, depth int) (string, int) {
